@@ -120,6 +120,26 @@ func framePool(seed uint64) [][]byte {
 		f := gen.RandFrame(r)
 		pool = append(pool, f.Bytes)
 	}
+	// CRC twins of a dozen pool frames: the same type and length, the last 25 payload
+	// bits differing by the CRC's generator polynomial, hence the same three CRC bytes
+	for i, n := 0, len(pool); i < 12; i++ {
+		src := pool[r.Intn(n)]
+		if len(src) < 6+5 {
+			continue
+		}
+		tw := append([]byte(nil), src...)
+		end := len(tw) - 3 // first CRC byte
+		const generator = uint32(0x1864CFB)
+		for b := 0; b < 25; b++ {
+			if generator>>uint(b)&1 == 1 {
+				bit := end*8 - 1 - b
+				tw[bit/8] ^= 1 << uint(7-bit%8)
+			}
+		}
+		if ref.IsFrame(tw) {
+			pool = append(pool, tw)
+		}
+	}
 	return pool
 }
 
